@@ -291,9 +291,11 @@ Definition kroute_kv (t : ptype) (kv : str * str) : bool := kroute t (all_extra 
 Lemma route_is_kroute t f : route t (all_extra t) f = kroute t (all_extra t) (fname f).
 Proof. reflexivity. Qed.
 
-Theorem reparse_para t K E n : para_ok t K E ->
-  exists p', from_fields t (expected_para n (rendered t K E)) = Ok p' /\ p_type p' = t /\
-             para_to_dict p' = KD t K ++ ED E.
+(* the paragraph parsed back from a rendering: its typed fields are built from the live values of the
+   dictionary form, its extra data is the extra data; and re-converting those values changes nothing *)
+Theorem reparse_para_shape t K E n : para_ok t K E ->
+  exists L', from_fields t (expected_para n (rendered t K E)) = Ok (build_para t (filter is_live (KD t K)) E L') /\
+             KD t (filter is_live (KD t K)) = KD t K.
 Proof.
   intros H. set (fs := expected_para n (rendered t K E)). set (LI := live_items t K E).
   destruct (po_extra _ _ _ H) as [HndE HkE].
@@ -320,7 +322,7 @@ Proof.
     induction (items t K E) as [|kv l IH]; [constructor|]. cbn [map filter] in *. inversion Hnd as [|? ? Hni Hnd']; subst.
     destruct (is_live kv); [|now apply IH]. cbn [map]. constructor; [|now apply IH].
     intros Hi. apply Hni. apply in_map_iff in Hi as (x & Ex & Hx). apply filter_In in Hx as [Hx _]. rewrite <- Ex. now apply in_map. }
-  rewrite from_fields_distinct by (rewrite Hnames; exact HndLI). eexists. split; [reflexivity|]. split; [reflexivity|].
+  rewrite from_fields_distinct by (rewrite Hnames; exact HndLI).
   rewrite Elive.
   (* the typed part is the live part of KD, the extra part is E *)
   assert (ELI : LI = filter is_live (KD t K) ++ E).
@@ -345,10 +347,18 @@ Proof.
     rewrite F2. destruct t eqn:Et; try (rewrite filter_none; [reflexivity|eapply Forall_impl; [|exact Hkd]; intros kv [Hk|Hc]; [unfold kroute_kv in Hk; now rewrite Hk|discriminate]]).
     reflexivity. }
   change (map (fun f => (fname f, fvalue f))) with (map pair_of). rewrite EK, EE.
-  rewrite to_dict_shape by apply (po_extra _ _ _ H). f_equal.
+  eexists. split; [reflexivity|].
   unfold KD at 1. apply map_ext_Forall. pose proof (po_stable _ _ _ H) as Hst. rewrite Forall_forall in *. intros [k c] Hin. cbn [fst snd]. f_equal.
   rewrite lookup_filter_live; [|rewrite keys_KD; apply known_names_nodup|apply (po_blank _ _ _ H)].
   rewrite (lookup_KD t K k c Hin). apply (Hst (k, c) Hin).
+Qed.
+
+Theorem reparse_para t K E n : para_ok t K E ->
+  exists p', from_fields t (expected_para n (rendered t K E)) = Ok p' /\ p_type p' = t /\
+             para_to_dict p' = KD t K ++ ED E.
+Proof.
+  intros H. destruct (reparse_para_shape t K E n H) as (L' & Ep & EK). eexists. split; [exact Ep|]. split; [reflexivity|].
+  rewrite to_dict_shape by apply (po_extra _ _ _ H). now rewrite EK.
 Qed.
 
 (* ---------- whole documents ---------- *)
